@@ -73,3 +73,26 @@ Proof. split; vm_compute; reflexivity. Qed.
 Example C08_no_field_has_a_mutable_container_type :
   PCD.Gen.SrcFields.source_mutable_fields = nil.
 Proof. vm_compute. reflexivity. Qed.
+
+(* Tie of the equality to the current source, for ALL pairs of constants at any nesting: Gen/SrcKey.v is the key
+   function inner_constant_key of code_data/_constants.py, re-translated on every run (its isinstance chain, with
+   bool before int; the helper bodies of constant_key / replace_nan / is_neg_zero checked against their expected
+   text), into the small universe of Python values of Model/PyVal.v; pv_eqb is Python's == there (type objects,
+   numbers compared by value across bool / int / float, -0.0 == 0.0, tuples in order, frozensets as sets).
+   Comparing the keys the source builds IS the model's ikey_eqb - so the equivalence, the type-exact
+   discrimination and the NaN identification proved above are statements about what Constant.__eq__ compares now. *)
+From PCD Require Model.PyVal Gen.SrcKey Proofs.SrcKeyTie.
+Theorem C08_equality_is_python_eq_on_the_keys_the_source_builds : forall a b,
+  PCD.Model.PyVal.pv_eqb (PCD.Gen.SrcKey.key a) (PCD.Gen.SrcKey.key b) = ikey_eqb a b.
+Proof. exact SrcKeyTie.key_eq_tie. Qed.
+Print Assumptions C08_equality_is_python_eq_on_the_keys_the_source_builds.
+
+(* non-vacuity: the universe does identify 1, True and 1.0 when they meet without their type tags (the keys keep
+   them apart), and 0.0 with -0.0 *)
+Example C08_python_eq_is_not_type_exact_by_itself :
+  PCD.Model.PyVal.pv_eqb (PCD.Model.PyVal.PInt 1) (PCD.Model.PyVal.PBool true) = true /\
+  PCD.Model.PyVal.pv_eqb (PCD.Model.PyVal.PInt 1) (PCD.Model.PyVal.PFloat 4607182418800017408) = true /\
+  PCD.Model.PyVal.pv_eqb (PCD.Model.PyVal.PFloat 0) (PCD.Model.PyVal.PFloat 9223372036854775808) = true /\
+  PCD.Model.PyVal.pv_eqb (PCD.Gen.SrcKey.key (IInt 1)) (PCD.Gen.SrcKey.key (IBool true)) = false /\
+  PCD.Model.PyVal.pv_eqb (PCD.Gen.SrcKey.key (IFloat 0)) (PCD.Gen.SrcKey.key (IFloat 9223372036854775808)) = false.
+Proof. vm_compute. repeat split; reflexivity. Qed.
